@@ -179,7 +179,30 @@ def _mutate(sx, mut, k):
             return st[:2] + [walk(s) for s in st[2:]]
         if kind == "macro":
             if mut == "macro_param" and len(st) > 3 and hit():
-                return st[:2] + [p + "x" for p in st[2:-1]] + [st[-1]]
+                # rename the parameters consistently (list and body): same meaning, different declaration
+                ren = {p: p + "x" for p in st[2:-1]}
+
+                def rn(x):
+                    if isinstance(x, str):
+                        return ren.get(x, x)
+                    if isinstance(x, tuple):
+                        return tuple(rn(y) for y in x)
+                    if isinstance(x, list):
+                        return [x[0]] + [rn(y) for y in x[1:]] if x and x[0] == "gate" and len(x) > 1 else [rn(y) if i else y for i, y in enumerate(x)]
+                    return x
+
+                def body(b):
+                    if not isinstance(b, list):
+                        return b
+                    if b[0] == "gate":
+                        return ["gate", b[1]] + [rn(a) for a in b[2:]]
+                    if b[0] == "loop":
+                        return ["loop", rn(b[1]), body(b[2])]
+                    if b[0] == "subcircuit_block":
+                        return ["subcircuit_block", rn(b[1])] + [body(y) for y in b[2:]]
+                    return [b[0]] + [body(y) for y in b[1:]]
+
+                return st[:2] + [ren[p] for p in st[2:-1]] + [body(st[-1])]
             return st[:-1] + [walk(st[-1])]
         return st
 
